@@ -818,6 +818,11 @@ def le_t(a, b):
     return node("le", None, a, b)
 
 
+def sort_of_impl(t):
+    """get_type of a constant index (the argument terms of the grid are well-typed)"""
+    return sort_of(t)
+
+
 def model(name, args, extra):
     """raw tree built by FormulaManager.<name>(args..., extra...) or Reject"""
     a = list(args)
@@ -888,7 +893,11 @@ def model(name, args, extra):
             return node("toReal", None, a[0])
         raise Reject("ToReal: argument is neither Int nor Real")
     if name == "Div":
-        return node("div", None, a[0], a[1])       # arguments are symbols: no constant rewriting
+        r_ = a[1]
+        zero = (r_[0] == "realConst" and r_[1][1] == 0) or (r_[0] == "intConst" and r_[1][1] == 0)
+        if not zero and r_[0] == "realConst":      # division by a real constant c is  left * (1/c)
+            return node("times", None, a[0], real_t(Fraction(1) / r_[1][1]))
+        return node("div", None, a[0], a[1])
     if name == "Pow":
         base, ex = a
         if not is_const(ex):
@@ -956,6 +965,8 @@ def model(name, args, extra):
             for k, v in assigned:
                 if not is_const(k):
                     raise Reject("Array: index is not a constant")
+                if v == a[0] and sort_of_impl(k) != idx:
+                    raise Reject("Array: dropped (default-valued) assignment has an index of the wrong type")
             out = None                  # argument order = CPython id() order: compared as a set below
         return ("arrayValue", ("t", idx), tuple(out)) if out is not None else ("arrayValue?", ("t", idx), (a[0], assigned))
     raise KeyError(name)
@@ -1101,7 +1112,92 @@ def width_corners(s):
     return w
 
 
+def rep_terms(s_):
+    """operands used for the repeated-operand cases: the same symbol / constant / compound term of sort s_"""
+    n_ = SNAME[s_]
+    x = sym("r_" + n_, s_)
+    out = [x]
+    if s_ == B:
+        out += [TRUE_T, node("not", None, sym("r2_Bool", B))]
+    elif s_ == I:
+        out += [int_t(7), node("plus", None, x, int_t(1))]
+    elif s_ == R:
+        out += [real_t(Fraction(1, 2)), node("plus", None, x, real_t(1))]
+    elif s_ == S:
+        out += [str_t("ab"), node("strConcat", None, x, str_t("a"))]
+    elif is_bv(s_):
+        out += [bv_t(1, s_[1]), node("bvNot", ints(s_[1]), x)]
+    elif s_ == A(I, I):
+        out += [node("arrayValue", ("t", I), int_t(0)), node("arrayStore", None, x, int_t(1), int_t(2))]
+    elif s_ == A(V(2), B):
+        out += [node("arrayValue", ("t", V(2)), FALSE_T), node("arrayStore", None, x, bv_t(1, 2), TRUE_T)]
+    elif s_ == A(I, A(I, R)):
+        inner = node("arrayValue", ("t", I), real_t(0))
+        out += [node("arrayValue", ("t", I), inner), node("arrayStore", None, x, int_t(1), inner)]
+    elif s_ == CS:
+        out += [node("function", ("y", "h", F(CS, CS)), x)]
+    return out
+
+
+ALL_REP_TERMS = [t_ for s_ in U14 for t_ in rep_terms(s_)]
+
+
+def repeated_tuples(n, others):
+    """argument tuples of length n (2 or 3) in which two or all positions hold the SAME term"""
+    for x in ALL_REP_TERMS:
+        if n == 2:
+            yield (x, x)
+        else:
+            yield (x, x, x)
+            for s_ in others:
+                yield (x, x, arg_sym(2, s_))
+                yield (x, arg_sym(1, s_), x)
+                yield (arg_sym(0, s_), x, x)
+
+
 def grid_b_cases(name, tier):
+    for c in grid_b_cases_distinct(name, tier):
+        yield c
+    for c in grid_b_cases_repeated(name, tier):
+        yield c
+
+
+def grid_b_cases_repeated(name, tier):
+    """hash-consing makes equal terms one object: every constructor of arity >= 2 is also called with
+    the same operand in two (or all) positions, for every sort and for symbols, constants and compound terms"""
+    quick = tier == "quick"
+    if name in BIN_CTORS:
+        for a in repeated_tuples(2, ()):
+            yield a, ()
+    if name in TER_CTORS:
+        for a in repeated_tuples(3, U14):
+            yield a, ()
+    if name in NARY_CTORS:
+        signs = [(False,), (True,)] if name in ("MinBV", "MaxBV") else [()]
+        for ex in signs:
+            for a in repeated_tuples(2, ()):
+                yield a, ex
+            for a in repeated_tuples(3, U6 if quick else U14):
+                yield a, ex
+    if name == "Function":
+        for fname, fs in FN_SYMS + [("f2", F(I, I, I)), ("g3", F(B, B, B, B))]:
+            for a in (repeated_tuples(len(fs[2]), U6) if len(fs[2]) in (2, 3) else ()):
+                yield a, (sym(fname, fs),)
+    if name == "Array":
+        keys = {I: int_t(1), V(2): bv_t(1, 2), B: TRUE_T}
+        for idx in (I, V(2), B):
+            for d in ALL_REP_TERMS:
+                for kidx in (I, V(2), B):
+                    yield (d,), (idx, ((keys[kidx], d),))          # the value IS the default
+                    yield (d,), (idx, ((keys[kidx], keys[kidx]),))  # the value IS the key
+                if is_const(d):
+                    yield (d,), (idx, ((d, d),))
+    if name == "Pow":
+        for c in ALL_REP_TERMS:
+            yield (c, c), ()
+
+
+def grid_b_cases_distinct(name, tier):
     """all (args, extra) of one constructor; args are raw leaves (symbols/constants)"""
     quick = tier == "quick"
     if name in UN_CTORS:
@@ -1199,7 +1295,7 @@ def realize(env, t):
         return mgr.String(p[1])
     if o == "bvConst":
         return mgr.BV(p[1], p[2])
-    raise ValueError(t)
+    return fnode_of_raw(env, t)        # a (well-typed) compound operand of the repeated-operand cases
 
 
 def call_ctor(env, name, args, extra):
@@ -1568,7 +1664,10 @@ def classify_ctor(name, args, extra, pred):
                 return "pow-zero-to-negative" if py_value(args[0]) == 0 and py_value(args[1]) < 0 else "pow-constants"
             return "pow-constant-folding"
         return "pow-non-numeric"
-    return "sorts=" + sorts_key(ss) + (" extra=%r" % (extra,) if extra else "")
+    rep = ""
+    if len(args) >= 2 and len(set(args)) < len(args):
+        rep = " same-operand@" + ",".join(str(i) for i, a in enumerate(args) if list(args).count(a) > 1)
+    return "sorts=" + sorts_key(ss) + rep + (" extra=%r" % (extra,) if extra else "")
 
 
 def extra_key(extra):
@@ -1589,7 +1688,7 @@ def judge_grid_b(ctx, judge, name, results):
         pred = predicted(name, args, extra)
         rk = crank(name, ss, (is_const(args[1]),) if name == "Pow" else extra)
         shape = classify_ctor(name, args, extra, pred)
-        key = ("B", name, sorts_key(ss), extra_key(extra))
+        key = ("B", name, ",".join(show_raw(a) for a in args), extra_key(extra))
         ctx.case(key if (impl_ok or rk is not None) else None)
         ctx.count("B_" + ("ok" if impl_ok else "err"))
         replay = {"grid": "B", "ctor": name, "sorts": [sort_name(s) if s else "?" for s in ss],
